@@ -192,7 +192,8 @@ def conc_configs(draw, tier):
     ntasks = draw(st.integers(2, 4))
     cancel = draw(st.one_of(st.none(), st.tuples(st.integers(0, ntasks - 1), st.integers(1, 4))))
     return {"awaits": [draw(st.integers(1, 2)) for _ in range(ntasks)], "lock": draw(st.booleans()),
-            "lock_susp": draw(st.booleans()), "susp": draw(st.integers(1, 2)),
+            "lock_susp": draw(st.booleans()), "lock_release_susp": draw(st.booleans()),
+            "susp": draw(st.integers(1, 2)),
             "deleter": draw(st.one_of(st.none(), st.integers(0, 3))),
             "fail_run": draw(st.one_of(st.none(), st.none(), st.integers(1, 2))),
             "cancel": list(cancel) if cancel else None,
@@ -207,7 +208,8 @@ def run_conc(case, choices=None, default="rr"):
     flags = {"shared-placeholder": False, "holder-cancelled": False}
     active = [0]
     problems = []
-    LockT = lock_type(ctx, "plock", suspend_uncontended=case["lock_susp"])
+    LockT = lock_type(ctx, "plock", suspend_uncontended=case["lock_susp"],
+                      release_susp=case.get("lock_release_susp", False))
 
     async def getter(self):
         rec = ["running", None, ctx.current_task]
